@@ -52,6 +52,9 @@ def reuse_stage(tier_, key):
             for ms in [[m] for m in corpus.MUTS[:6]] + [["memoindex", "offbyone"], ["character", "stringlen"]]:
                 cfgs.append(corpus.cfg(P, 40, 120, muts=ms, rate=1.0)); maxlens.append(3)
                 cfgs.append(corpus.cfg(P, 40, 120, muts=ms, rate=0.6)); maxlens.append(3)
+        # an earlier call whose memo went beyond 256 entries (3 500+ opcodes), then ordinary calls
+        for P in ((1, 4) if tier_ == "quick" else range(1, 6)):
+            cfgs.append(corpus.cfg(P, 3500, 4500)); maxlens.append(2)
         # one long session per protocol (thousands of calls on one generator, small programs)
         long_calls = [0] * len(cfgs)
         for P in range(6):
@@ -121,6 +124,14 @@ def determinism_stage(tier_, key):
                 J.bytes_job(corpus.cfg(P, 20, 80), blen=J.rng.choice([0, 1, 2, 3, 5, 8, 13, 21, 34, 55, 89, 144, 200]))
             for kind in ("empty", "zero", "ff"):
                 J.bytes_job(corpus.cfg(P, 20, 80, muts=corpus.MUTS, rate=0.5), kind=kind, blen=16)
+            # extreme byte patterns (all-ones floats are NaN, 7f f0.. / ff f0.. are the infinities) at every alignment
+            for kind, blen in (("ff", 64), ("ff", 300), ("ff", 3000), ("zero", 300), ("ramp", 600)):
+                J.bytes_job(corpus.cfg(P, 20, 80), kind=kind, blen=blen)
+                J.bytes_job(corpus.cfg(P, 20, 80, muts=corpus.MUTS, rate=1.0, unsafe=True), kind=kind, blen=blen)
+            for k in range(8 if q else 40):
+                pat = [[0x7f, 0xf0, 0, 0, 0, 0, 0, 0], [0xff, 0xf0, 0, 0, 0, 0, 0, 0], [0x7f, 0xf8, 0, 0, 0, 0, 0, 1], [0, 0, 0, 0, 0, 0, 0xf0, 0x7f]][k % 4]
+                data = [J.rng.randrange(256) for _ in range(J.rng.randrange(0, 24))] + pat * 40
+                J.bytes_job(corpus.cfg(P, 20, 80), data=data)
             # hash-based containers with several keys of different kinds, then free choices: anything that looks at
             # "the first key" or iterates such a container while deciding what to emit depends on the hasher
             if P >= 1:
@@ -347,6 +358,9 @@ def leak_stage(tier_, key):
             for _ in range(6 if q else 60):
                 J.seed_job(corpus.cfg(P), thread=True)
             J.bytes_job(corpus.cfg(P, ext=True, buf=True), blen=2000, thread=True)
+            # one generator, hundreds of different pickles: what it still holds after reset() must not keep growing
+            J.bytes_job(corpus.cfg(P, ext=True, buf=True), blen=3000, growth=150 if q else 1500)
+            J.bytes_job(corpus.cfg(P, 60, 300, muts=corpus.MUTS, rate=0.5, unsafe=True, ext=True), blen=3000, growth=100 if q else 1000)
         jf = os.path.join(d, "leak_jobs.json"); json.dump(J.jobs, open(jf, "w"))
         of = os.path.join(d, "leak.ndjson")
         run([PFV, "leak", jf, of], timeout=7200)
@@ -548,7 +562,9 @@ def front_stage(tier_, key):
         exe = build_cli()
         q = tier_ == "quick"
         rng = random.Random(sub_seed("front", tier_))
-        mut_choices = [[], ["all"], ["bitflip", "character"], ["memoindex", "offbyone"]] + [[m] for m in corpus.MUTS]
+        # ordered lists (not alphabetical), repeated names: the list is a sequence, the first applicable mutator wins
+        mut_choices = [[], ["all"], ["bitflip", "character"], ["memoindex", "offbyone"]] + [[m] for m in corpus.MUTS] + [
+            ["offbyone", "bitflip"], ["stringlen", "character", "boundary"], ["bitflip", "boundary", "bitflip"], ["memoindex", "memoindex", "offbyone"]]
         def rand_opts(i):
             sd = rng.choice([rng.randrange(0, 2 ** 31 - 1), rng.randrange(0, 2 ** 31 - 1), rng.randrange(2 ** 32, 2 ** 34), rng.randrange(2 ** 63, 2 ** 64), 2 ** 32 + rng.randrange(6)])
             return {"protocol": rng.choice([-1, -1, 0, 1, 2, 3, 4, 5]), "seed": sd if sd < 2 ** 31 else -2, "seedl": seed_limbs(sd),
@@ -562,7 +578,7 @@ def front_stage(tier_, key):
         for i in range(12 if q else 80):
             cases.append({"id": len(cases) + 1, "kind": "cli", "mode": "batch", "opts": rand_opts(i * 3 + 1), "n": rng.choice([1, 3, 17]),
                           "threads": rng.choice([1, 4, 16])})
-        for i in range(10 if q else 40):
+        for i in range(24 if q else 90):
             cases.append({"id": len(cases) + 1, "kind": "cli", "mode": "action", "opts": rand_opts(i * 5 + 2), "n": rng.choice([0, 2])})
         cases.append({"id": len(cases) + 1, "kind": "cli", "mode": "batch-fail", "opts": rand_opts(1), "n": 3, "threads": 2})
         # one of the files can be opened but not written (<dir>/1.pkl -> /dev/full): "exits 0 only if all were written"
@@ -616,7 +632,7 @@ def front_stage(tier_, key):
                     open(fp, "wb").write(b"\x2e" * 300000); what += " [over an existing longer file]"; base["what"] = what
                 p = run([exe] + cli_args(o, [fp]), check=False, timeout=600)
                 got = open(fp, "rb").read().hex() if os.path.exists(fp) else ""
-                recs.append(dict(base, exit=min(p.returncode, 1), want_exit=0, files=[], want_files=[], got=got, lib=lib[c["id"]]))
+                recs.append(dict(base, exit=min(p.returncode, 1), want_exit=0, files=[], want_files=[], got=got, lib=lib[c["id"]], gotb=list(bytes.fromhex(got))))
             elif c["mode"] in ("batch", "batch-fail", "batch-writefail"):
                 od = os.path.join(d, "front_batch")
                 shutil.rmtree(od, ignore_errors=True)
@@ -642,7 +658,7 @@ def front_stage(tier_, key):
                     files = sorted(os.listdir(od), key=lambda f: (len(f), f)) if os.path.isdir(od) else []
                     got = [open(os.path.join(od, f), "rb").read().hex() for f in files]
                     recs.append(dict(base, exit=min(p.returncode, 1), want_exit=0, files=files, want_files=["%d.pkl" % i for i in range(c["n"])],
-                                     got=got, lib=[lib[c["id"]]] * c["n"]))
+                                     got=got, lib=[lib[c["id"]]] * c["n"], gotb=list(bytes.fromhex(got[0])) if got else []))
                     shutil.rmtree(od, ignore_errors=True)
             else:   # GitHub-action wrapper
                 env = {"PATH": os.path.dirname(exe) + ":" + os.environ.get("PATH", ""), "INPUT_SEED": str(real_seed(o)),
@@ -650,9 +666,12 @@ def front_stage(tier_, key):
                        "INPUT_MUTATION_RATE": "%.3f" % (o["rate1000"] / 1000.0)}
                 if o["protocol"] >= 0: env["INPUT_PROTOCOL"] = str(o["protocol"])
                 if o["muts"]: env["INPUT_MUTATORS"] = ", ".join(o["muts"])
-                if o["unsafe"]: env["INPUT_UNSAFE_MUTATIONS"] = "true"
-                if o["ext"]: env["INPUT_ALLOW_EXT"] = "true"
-                if o["buf"]: env["INPUT_ALLOW_BUFFER"] = "1"
+                # boolean inputs in the spellings the wrapper documents as on, and in spellings that are off
+                ON = ["true", "TRUE", "True", "1", "yes", "YES", "Yes"]; OFF = [None, "", "false", "0", "no", "off", "False", "FALSE", "n"]
+                for key, flag in (("INPUT_UNSAFE_MUTATIONS", o["unsafe"]), ("INPUT_ALLOW_EXT", o["ext"]), ("INPUT_ALLOW_BUFFER", o["buf"])):
+                    v = ON[(c["id"] + len(key)) % len(ON)] if flag else OFF[(c["id"] + len(key)) % len(OFF)]
+                    if v is not None: env[key] = v
+                base["what"] = what + " env=" + json.dumps({k: v for k, v in env.items() if k.startswith("INPUT_")}, sort_keys=True)
                 for k in list(os.environ):
                     if k.startswith("INPUT_"): os.environ.pop(k)
                 if c["n"] == 0:
@@ -661,7 +680,7 @@ def front_stage(tier_, key):
                     env["INPUT_OUTPUT_FILE"] = fp
                     p = run(["bash", os.path.join(REPO, "scripts", "action-run.sh")], env=env, check=False, timeout=600)
                     got = open(fp, "rb").read().hex() if os.path.exists(fp) else ""
-                    recs.append(dict(base, exit=min(p.returncode, 1), want_exit=0, files=[], want_files=[], got=got, lib=lib[c["id"]]))
+                    recs.append(dict(base, exit=min(p.returncode, 1), want_exit=0, files=[], want_files=[], got=got, lib=lib[c["id"]], gotb=list(bytes.fromhex(got))))
                 else:
                     od = os.path.join(d, "front_action_dir"); shutil.rmtree(od, ignore_errors=True)
                     env["INPUT_OUTPUT_DIR"] = od; env["INPUT_SAMPLES"] = str(c["n"])
@@ -669,7 +688,7 @@ def front_stage(tier_, key):
                     files = sorted(os.listdir(od), key=lambda f: (len(f), f)) if os.path.isdir(od) else []
                     got = [open(os.path.join(od, f), "rb").read().hex() for f in files]
                     recs.append(dict(base, exit=min(p.returncode, 1), want_exit=0, files=files, want_files=["%d.pkl" % i for i in range(c["n"])],
-                                     got=got, lib=[lib[c["id"]]] * c["n"]))
+                                     got=got, lib=[lib[c["id"]]] * c["n"], gotb=list(bytes.fromhex(got[0])) if got else []))
                     shutil.rmtree(od, ignore_errors=True)
         # python front end
         py_note = ""
